@@ -47,6 +47,7 @@ type leaderRun struct {
 	issued  int64
 	done    atomic.Int64 // client callbacks completed (ok or error)
 	nIssued int64
+	refused bool // a generated request was not accepted by the leader: the schedule cannot be followed
 }
 
 func startLeader(n *node, rf int, term int64, heads *proto.EntryId) (*leaderRun, error) {
@@ -77,12 +78,30 @@ func startLeader(n *node, rf int, term int64, heads *proto.EntryId) (*leaderRun,
 	return lr, nil
 }
 
+// write hands one more request to the leader. A session record is created through the leader's own
+// CreateSession (clients cannot write internal keys); it blocks until the write is applied, so it runs
+// aside and the harness goes on once the entry has reached the WAL.
 func (lr *leaderRun) write(req *proto.WriteRequest) {
-	lr.nIssued++
-	lr.issued++
-	lr.lc.Write(context.Background(), req, concurrent.NewOnce(
-		func(*proto.WriteResponse) { lr.done.Add(1) },
-		func(error) { lr.done.Add(1) }))
+	expected := lr.issued + 1
+	if len(req.Puts) == 1 && strings.HasPrefix(req.Puts[0].Key, "__oxia/session/") {
+		lr.nIssued++
+		go func() {
+			lr.lc.CreateSession(&proto.CreateSessionRequest{Shard: shardId, SessionTimeoutMs: 300000, ClientIdentity: "cli"})
+			lr.done.Add(1)
+		}()
+		waitLive(lr.n, stepTimeout, func() bool { _, a := lr.n.walf.current().heads(); return a >= expected })
+	} else {
+		lr.nIssued++
+		lr.lc.Write(context.Background(), req, concurrent.NewOnce(
+			func(*proto.WriteResponse) { lr.done.Add(1) },
+			func(error) { lr.done.Add(1) }))
+	}
+	if _, a := lr.n.walf.current().heads(); a < expected && !lr.n.clk.isCrashed() {
+		// the leader refused the request before giving it an offset
+		lr.refused = true
+		return
+	}
+	lr.issued = expected
 }
 
 func (lr *leaderRun) ack(f int, upto int64) bool {
@@ -105,6 +124,7 @@ func (lr *leaderRun) exec(s step) bool {
 	switch s.kind {
 	case "W":
 		lr.write(s.req)
+		return !lr.refused
 	case "S":
 		lr.n.g.releaseUpTo(s.upto)
 		return lr.n.g.waitDone(s.upto, stepTimeout)
@@ -240,6 +260,10 @@ func runLeaderCase(o *hx.Out, p params) (string, int64) {
 	lr.close()
 	live := n.kvf.takeLog()
 	checkLive(o, p, live, fmtSteps(steps))
+	if lr.refused {
+		o.Count("request-refused-by-leader")
+		return "refused", 0
+	}
 	if stuck != "" {
 		reportStuck(o, p, stuck)
 		return "stuck", 0
@@ -272,8 +296,13 @@ func controllerFailed(o *hx.Out, p params, where string, err error) {
 // the schedule is one the model admits, so this is a broken correspondence.
 func reportStuck(o *hx.Out, p params, what string) {
 	o.Count("schedule-stuck")
-	o.Violation("correspondence:schedule-not-realisable", p.leg+" "+p.String()+": "+what)
+	pendingStuck = p.leg + " " + p.String() + ": " + what
 }
+
+// A step that does not complete within its (generous) time limit is only reported if it does not complete in a
+// second execution of the same case either: the verdict "does not complete" depends on wall-clock time, unlike
+// all the others, and must not be raised by a machine that was busy for a few seconds.
+var pendingStuck string
 
 // checkLive: every application before the crash must have happened at commit+1.
 func checkLive(o *hx.Out, p params, log []applied, sched string) {
